@@ -25,6 +25,7 @@ from propcheck import Suite
 L = '10.0.0.1:25000'
 R = '10.0.0.2:25000'
 THIRD = '10.0.0.3:25000'
+FOURTH = '10.0.0.4:25000'    # known instance whose handshake is completed but that has not ticked yet (CHECKED)
 L_NICK = '10.0.0.1'
 R_NICK = '10.0.0.2'
 STEREO = 'supvisors_test'
@@ -60,7 +61,7 @@ SIGNATURES = {
 STRATS = ['StOk', 'StOkInt', 'StUser', 'StBadStr', 'StBadInt', 'StBadType']
 APPS = ['ApStopped', 'ApRunning', 'ApUnmanaged', 'ApUnknown']
 PROCS = ['PrKnown', 'PrUnknown', 'PrStar', 'PrNone', 'PrInt']
-INSTS = ['InIdent', 'InNick', 'InStereo', 'InUnknown', 'InEmpty', 'InStopped', 'InMulti']
+INSTS = ['InIdent', 'InNick', 'InStereo', 'InUnknown', 'InEmpty', 'InStopped', 'InMulti', 'InChecked']
 PROGS = ['PgKnown', 'PgUnknown']
 NUMS = ['NumOk', 'NumZero', 'NumStr']
 LEVELS = ['LvOk', 'LvOkInt', 'LvBad', 'LvBadInt']
@@ -119,9 +120,9 @@ def strat_value(meth, s):
 def inst_value(meth, i):
     if meth == 'end_sync':
         return {'InIdent': R, 'InNick': R_NICK, 'InStereo': STEREO, 'InUnknown': 'nope', 'InEmpty': '',
-                'InStopped': THIRD, 'InMulti': MULTI}[i]
+                'InStopped': THIRD, 'InMulti': MULTI, 'InChecked': FOURTH}[i]
     return {'InIdent': L, 'InNick': L_NICK, 'InStereo': STEREO, 'InUnknown': 'nope', 'InEmpty': '',
-            'InStopped': THIRD, 'InMulti': MULTI}[i]
+            'InStopped': THIRD, 'InMulti': MULTI, 'InChecked': FOURTH}[i]
 
 
 def concrete_args(req):
@@ -499,6 +500,11 @@ def build_world(view):
             'fsm_statecode': sm.state.value, 'degraded_mode': False, 'discovery_mode': False,
             'master_identifier': sm.master_identifier, 'starting_jobs': True, 'stopping_jobs': False,
             'instance_states': {k: v.name for k, v in sm.instance_states.items()}})
+    if jobs in ('lost_isolated', 'lost_stopped'):
+        # ... and is then lost (real Context.invalidate, fenced or not): the jobs of a lost instance do not count
+        from supvisors.ttypes import SupvisorsInstanceStates
+        w.sv.context.instances[R].state = SupvisorsInstanceStates.FAILED
+        w.sv.context.invalidate(w.sv.context.instances[R], fence=(jobs == 'lost_isolated'))
     if natural_user != user_sync:
         from supvisors.ttypes import SynchronizationOptions
         w.direct.append('synchro_options')
@@ -550,6 +556,11 @@ def run_cell(cell):
     w = build_world(view)
     for d in w.direct:
         DIRECT_POINTS.add((view[0], view[1], d))
+    if req['inst'] == 'InChecked':
+        # an active instance that is not RUNNING: handshake completed (CHECKING -> CHECKED), first TICK not received
+        from supvisors.ttypes import SupvisorsInstanceStates
+        w.sv.context.instances[FOURTH].state = SupvisorsInstanceStates.CHECKING
+        w.sv.context.instances[FOURTH].state = SupvisorsInstanceStates.CHECKED
     before = w.snapshot()
     del w.log[:]
     args = concrete_args(req)
@@ -647,6 +658,10 @@ def views_of(meth):
                 out.append((st, role, u, False, True))
             if meth == 'restart_sequence':
                 out.append((st, role, True, True, True))
+                if role == 'MSelf' and st != 'OFF':     # (the peer is RUNNING from SYNCHRONIZATION on)
+                    # jobs published by a slave that is then invalidated (ISOLATED / STOPPED)
+                    out.append((st, role, True, 'lost_isolated', True))
+                    out.append((st, role, True, 'lost_stopped', True))
             if meth in ('enable_host_statistics', 'enable_process_statistics', 'update_collecting_period',
                         'get_statistics_status'):
                 out.append((st, role, True, False, False))
@@ -706,7 +721,7 @@ class RpcGateSuite(Suite):
     def emit(self, cell, obs):
         view, req = cell
         st, role, user, jobs, coll = view
-        v = app('mk_view', C('S_' + st), C(role), user, jobs, coll)
+        v = app('mk_view', C('S_' + st), C(role), user, jobs is True, coll)
         r = app('mk_req', C('M_' + req['meth']), C(req['strat']), C(req['app']), C(req['proc']), C(req['inst']),
                 C(req['prog']), C(req['num']), C(req['level']), C(req['regex']), req['wait'], req['flag'])
         oc = obs['outcome']
